@@ -25,6 +25,8 @@ import (
 
 var names = []string{"page0", "page1", "page2"}
 
+var flipN atomic.Int64
+
 func mainSrc(n string, v int) []byte {
 	return []byte(fmt.Sprintf("M%d<%s>{%% for i := 0; i < 3; i++ sep , %%}{%%= i %%}:{%%= user.Id %%}{%% endfor %%}|{%% include part missing %%}|{%% . missing part %%}|{%% for _, h := range user.Finance.History %%}{%%= h.Cost %%};{%% endfor %%}E%d", v, n, v))
 }
@@ -184,7 +186,12 @@ func main() {
 		if err != nil {
 			panic(err)
 		}
-		dyntpl.RegisterTplKey("flip", t)
+		// the name is known by key first; every third registration also gives it an ID
+		if flipN.Add(1)%3 == 0 {
+			dyntpl.RegisterTpl(7077, "flip", t)
+		} else {
+			dyntpl.RegisterTplKey("flip", t)
+		}
 	}
 	regFlip(0)
 	wg.Add(1)
@@ -203,7 +210,12 @@ func main() {
 			ctx := dyntpl.AcquireCtx()
 			ctx.Set("user", u, ins)
 			buf.Reset()
-			err := dyntpl.Write(&buf, "flip", ctx)
+			var err error
+			if flipN.Load() >= 3 && k%2 == 0 {
+				err = dyntpl.WriteByID(&buf, 7077, ctx) // registered under the ID as well by now
+			} else {
+				err = dyntpl.Write(&buf, "flip", ctx)
+			}
 			dyntpl.ReleaseCtx(ctx)
 			if err != nil {
 				note(&res.Errors, err.Error())
